@@ -70,7 +70,8 @@ pub fn fuzz_gens() -> Vec<Gen> {
     [
         c01::gens(),
         c04::gens(),
-        c05::gens(),
+        // C05's generators apply every single fault to a seed (hundreds of decodes per case); they
+        // are searched by their own `prop_choice` campaign and would only slow this shared one down
         c06::gens(),
         c12::gens(),
         c13::gens(),
